@@ -44,7 +44,13 @@ def _sanitize_user_name(name) -> str | None:
 	- Return None if empty after sanitization
 	"""
 	if not isinstance(name, str):
-		name = str(name)
+		try:
+			name = str(name)
+		except Exception:
+			# a label whose text cannot be produced (an int beyond the int-to-str digit
+			# limit, a __str__ that raises) is sanitised from the name of its type: the
+			# accessors - and with them repr, dir and every lookup - must not fail for it
+			name = type(name).__name__
 	
 	# Lowercase
 	name = name.lower()
